@@ -198,23 +198,39 @@ def run_property(build_mod: str, pid: str, argv=None) -> int:
     reports = []
     if jobs:
         if a.jobs > 1 and len(jobs) > 1:
-            # every function gets a wall-clock budget: symbolic execution of a restructured function (or a solver call inside it) must not
-            # keep the whole check alive - past the budget the function is reported as undecided and the workers are stopped
-            budget = float(os.environ.get("PYVC_FUNCTION_BUDGET_S", "900"))
-            pool = mp.get_context("fork").Pool(min(a.jobs, len(jobs)))
-            try:
-                handles = [(j, pool.apply_async(_verify_one, (j,))) for j in jobs]
-                t_start = time.time()
-                for j, h in handles:
-                    try:
-                        reports.append(h.get(timeout=max(1.0, budget - (time.time() - t_start))))
-                    except mp.TimeoutError:
-                        reports.append({"key": j[5], "info": {}, "obligations": [], "paths": 0, "infeasible": 0, "inlined": [], "dropped": [], "assumed": {}, "axioms": [],
-                                        "used_contracts": [], "error": f"verification of this function did not finish within {budget:.0f} s (stopped)",
-                                        "error_kind": "unsupported", "time_s": budget})
-            finally:
-                pool.terminate()
-                pool.join()
+            # every function gets a wall-clock budget: z3 now and then ignores its timeout inside a worker (seen on sequence/quantifier queries: a
+            # worker at 100 % CPU for 40 minutes on a tree where the same run otherwise takes 35 s).  Past the budget the workers are stopped and the
+            # unfinished functions are verified once more in fresh workers; only if that does not finish either is a function reported as undecided.
+            budget = float(os.environ.get("PYVC_FUNCTION_BUDGET_S", "300"))
+
+            def run_batch(batch):
+                done, late = [], []
+                pool = mp.get_context("fork").Pool(min(a.jobs, len(batch)))
+                try:
+                    handles = [(j, pool.apply_async(_verify_one, (j,))) for j in batch]
+                    t_start = time.time()
+                    for j, h in handles:
+                        try:
+                            done.append((j, h.get(timeout=max(1.0, budget - (time.time() - t_start)))))
+                        except mp.TimeoutError:
+                            late.append(j)
+                finally:
+                    pool.terminate()
+                    pool.join()
+                return done, late
+            done, late = run_batch(jobs)
+            if late:
+                done2, late2 = run_batch(late)
+                done += done2
+                late = late2
+            by_job = {id(j): r for j, r in done}
+            for j in jobs:
+                if id(j) in by_job:
+                    reports.append(by_job[id(j)])
+                else:
+                    reports.append({"key": j[5], "info": {}, "obligations": [], "paths": 0, "infeasible": 0, "inlined": [], "dropped": [], "assumed": {}, "axioms": [],
+                                    "used_contracts": [], "error": f"verification of this function did not finish within {budget:.0f} s, twice (stopped)",
+                                    "error_kind": "unsupported", "time_s": 2 * budget})
         else:
             reports = [_verify_one(j) for j in jobs]
     all_obs = []
